@@ -810,11 +810,19 @@ class Interp:
             return self.global_value(v.dotted + "." + attr, n, ctx)
         if isinstance(v, ObjV):
             f = self.prog.method(v.module, v.cls, attr)
+            if f is not None and getattr(f, "is_static", False):
+                return FuncRef(f)
+            if f is not None and getattr(f, "is_property", False):
+                return self.call_repo(f, v, [], {}, n, env, ctx)
             if f is not None:
                 return BoundMethod(v, f)
             if attr in v.attrs:
                 return v.attrs[attr]
             return self.h_attr(v, attr, n, env, ctx)
+        if isinstance(v, ClassRef):
+            f = self.prog.method(v.module, v.name, attr)
+            if f is not None and getattr(f, "is_static", False):
+                return FuncRef(f)
         if isinstance(v, SuperV):
             f = self.prog.base_method(v.module, v.cls, attr)
             if f is None:
@@ -1694,6 +1702,10 @@ class Interp:
         return self.join_env(cur, brk)
 
     def _loop(self, s, env, ctx, is_for):
+        if is_for and isinstance(s.iter, (ast.Tuple, ast.List)) and 0 < len(s.iter.elts) <= 8 and not any(isinstance(e_, ast.Starred) for e_ in s.iter.elts) \
+                and any(isinstance(e_, (ast.Tuple, ast.List)) for e_ in s.iter.elts):
+            # for (x, flag) in ((a, False), (b, True)): a loop over a literal display of records is the sequence of its bodies
+            return self._unrolled(s, [self.ev(e_, env, ctx) for e_ in s.iter.elts], env, ctx)
         if is_for and self.static_rooted(s.iter, env, ctx):
             itv0 = self.ev(s.iter, env, ctx)
             if isinstance(itv0, KwV):
